@@ -58,6 +58,11 @@ CHECKS = {
    text="For every value of the data set (hostile strings and keys, boundary numbers, lists, nested tables, arrays of tables, mixed arrays, empty containers; TOML-safe subset for TOML) the loop export --out E -> independent reader == JSON tree, -o file.ext inference, export -> cue import -> export --out json == original, direct file / stdin / package-directory inputs, -e path and --escape is run for E in json, yaml, toml, cue; an exit-status truth table covers incomplete, conflicting and non-concrete inputs under every encoding.",
    note="Trusts encoding/json, goccy/go-yaml + yaml.v3 (2-of-2), pelletier/go-toml as independent readers (TOML key order ignored). In-process execution of the CLI is validated against the real binary on a fixed 1-in-9 sample of invocations (stdout and exit status must agree).",
    ref="DESIGN.md §3 C12"),
+ "C13": dict(engine="enum",
+   technique="bounded-exhaustive enumeration of composed JSON Schemas x instances through the real importer (Extract -> format -> compile -> Unify/Validate) and generator, with python jsonschema (Draft 2020-12) as independent oracle, one batch process per chunk",
+   text="Every schema of the bounded composition grammar (one or two leaf keywords from a 38-entry alphabet; every structural keyword over a 12-schema sub-schema alphabet, alone and paired with leaf keywords; thorough adds ternary combinations and depth 3) is imported and each of 21 constant-biased instances is checked: instance & schema validates as concrete exactly when the independent validator accepts. Schemas the importer rejects are skipped and counted. For schemas without object-shaped keywords the JSON Schema generated back from the CUE must accept exactly the same instances.",
+   note="Trusts python jsonschema 4.26. Unclaimed: prefixItems (not in the property's keyword list), the round trip through Generate for schemas with object-shaped keywords. Five known importer findings are listed in known_findings.jsonl.",
+   ref="DESIGN.md §3 C13"),
  "C20": dict(engine="enum",
    technique="bounded-exhaustive enumeration of packages (schema+data declaration pool x file partitions, trim testdata with every literal replaced) through the real loader, trim.Files and evaluator; canonical value with defaults resolved compared before/after",
    text="Every package of <=k declarations from the schema+redundant-data pool, in every partition over 1-2 files and both file orders, and every trim testdata archive unmutated and with each literal replaced, is loaded as the command does (cue/load overlay), trimmed with trim.Files, printed, re-loaded and re-evaluated: the files must still build, canon with defaults resolved must be identical at every path (same data, same errors) and trimming the result again must change nothing.",
